@@ -267,7 +267,8 @@ def pattern_scenario(seed):
     ids = rng.sample(range(1, 2 ** 31 - 1), n)
     kind = rng.choice(("lost_with_cancelled", "lost_with_cancelled", "close_cancels_sibling", "close_cancels_sibling",
                        "lost_then_close", "disconnect_window", "disconnect_window", "flush_on_connect",
-                       "flush_on_connect", "odd_ids", "odd_ids", "late_data", "late_data"))
+                       "flush_on_connect", "odd_ids", "odd_ids", "late_data", "late_data", "cancel_while_connecting",
+                       "cancel_while_connecting"))
     t0 = [round(rng.choice((0.0, 0.0, 0.01, 0.03)) * k, 4) for k in range(n)]
     actions = [[t0[k], "req", i, True] for k, i in enumerate(ids)]
     on_fire, behaviour, cuts, connect = {}, [], {}, ["accept"] * 12
@@ -277,7 +278,25 @@ def pattern_scenario(seed):
     injections = []
     linger = None
     oversize_tail = None
-    if kind == "late_data":
+    if kind == "cancel_while_connecting":
+        # the only request is cancelled while the connection is still being set up, and that attempt then fails with
+        # nothing queued; whatever is asked later must still get a connection
+        force_latency = rng.choice((0.02, 0.05))
+        connect = [rng.choice(("refuse", "refuse", "blackhole"))] + ["refuse"] * rng.choice((0, 0, 1, 2)) + ["accept"] * 12
+        first = ids[0]
+        later = ids[1:]
+        actions = [[0.0, "req", first, True], [round(rng.uniform(0.001, 0.015), 4), "cancel", first]]
+        t_l = rng.choice((0.3, 1.0, 2.0))
+        for k, i in enumerate(later):
+            actions.append([round(t_l + 0.01 * k, 4), "req", i, True])
+        for i in ids:
+            for nth in range(3):
+                behaviour.append([i, nth, ["now"]])
+        if connect[0] == "blackhole":
+            # (a black-holed attempt is the endpoint's to give up on: make it the second request's problem only if it
+            # is cancelled by the harness, which it is not - so use a refusal there)
+            connect[0] = "refuse"
+    elif kind == "late_data":
         # a transport that keeps delivering after loseConnection() until the closing handshake is through (TLS):
         # a reply that arrives right behind disconnect(), and what follows an impossible length prefix - bytes
         # shaped like frames that bear the ids of requests in flight
